@@ -99,6 +99,13 @@ class C01(MsgProp):
                         for _, x in mf["fields"]:
                             toks += g.msm(r, f, "valid", invalid=inv) if x == f["id"] else g.frag(r, x, "valid")
                         yield ("ENC %d %s" % (num, " ".join(toks)), "msm-invalid-class", True)
+        # relations BETWEEN fields of one message (a == -b, a + b == 0, a == b for different fields): every numeric
+        # field carries +k or -k grid steps, the minus sign walking through the first fields one at a time
+        for n in g.numbers:
+            for k in (1, 11):
+                pats = [[1], [-1], [1, -1], [-1, 1]] + [[1] * j + [-1] + [1] * 60 for j in range(14)]
+                for signs in pats:
+                    yield ("ENC " + g.correlated(r, n, k, signs, lens=2), "correlated-fields", True)
         yield from string_neighbour_ops(g, r)
         # message values extended in place (public mutators) between two encodes: text, descriptor, list
         for kind, cap in (("text", 127), ("desc", 31), ("list", 31)):
@@ -519,6 +526,24 @@ class C12(MsgProp):
             for L, ms in one_per_len:
                 for m in ms:
                     yield ("BUILDSEQ " + f + " ; " + m, "refused-inside-a-byte-then-target", True)
+        # MSM messages refused by a validation test (every class: the 73-bit header is already written), then a target of
+        # every short length
+        msm_refused = []
+        for f_ in g.frags.values():
+            if f_["macro"] == "msm_data_seg_frag":
+                nums_ = [x for x in g.numbers if g.mod_of[x] and f_["id"] in g.frags[g.mod_of[x]]["refs"]]
+                for num in nums_[:1]:
+                    mf = g.frags[g.mod_of[num]]
+                    for inv in ("sat0", "sat65", "cellsat0", "badsig", "dupsat", "dupcell", "mismatch-extra-sat", "mismatch-extra-cell",
+                                "mismatch-swap", "cells65", "only-sats", "only-cells"):
+                        toks = []
+                        for _n, x in mf["fields"]:
+                            toks += g.msm(r, f_, "valid", invalid=inv) if x == f_["id"] else g.frag(r, x, "wild" if x in g.dfs else "valid")
+                        msm_refused.append("%d %s" % (num, " ".join(toks)))
+        short_targets = [(L, ms) for L, ms in one_per_len if L <= 40]
+        for mref in r.sample(msm_refused, min(len(msm_refused), 30)):
+            for L, ms in short_targets:
+                yield ("BUILDSEQ " + mref + " ; " + ms[0], "msm-refused-then-target", True)
         # any length relation between a frame and the next one (not only neighbours): every short target behind frames
         # of unrelated lengths, shorter and longer, including the longest ones
         allm = [m for L, ms in ((L, by_len[L]) for L in lens_sorted) for m in ms[:1]]
